@@ -37,6 +37,8 @@ fn promise_case<P: G>(cfg: Cfg, j: usize, tier: Tier, top: bool) -> Box<dyn Case
         created.dedup();
         let mut seen = std::collections::BTreeSet::new();
         created.retain(|p| seen.insert(*p));
+        // verdicts of the promise-free twin batches (layout [triple, companion] and [companion, triple]), computed once
+        let mut twin_memo: [Option<bool>; 2] = [None, None];
         for p in created {
             let mut wit = base.clone();
             wit.promises[j] = p;
@@ -145,7 +147,38 @@ fn promise_case<P: G>(cfg: Cfg, j: usize, tier: Tier, top: bool) -> Box<dyn Case
                     if !base_ok || !comp_ok {
                         continue;
                     }
+                    // differential twin: the same configuration and companion without any promise; a batch layout that is
+                    // rejected even then is C03's finding
+                    let twin_ok = |first: bool| -> bool {
+                        let mut tw = wit.clone();
+                        tw.promises = vec![None; cfg.m];
+                        let mut cw2 = cw.clone();
+                        cw2.promises[0] = None;
+                        let (tb, cb) = match (build_cached::<P>(&cfg, &tw), build_cached::<P>(&comp_cfg, &cw2)) {
+                            (Ok(a), Ok(b)) => (a, b),
+                            _ => return false,
+                        };
+                        let (tp, cp) = match (lib_prove(&tb, &CTX_A, &mut HRng::chacha(41)), lib_prove(&cb, &CTX_A, &mut HRng::chacha(43))) {
+                            (Ok(a), Ok(b)) => (a, b),
+                            _ => return false,
+                        };
+                        let (sts, proofs) = if first {
+                            (vec![tb.statement.clone(), cb.statement.clone()], vec![tp, cp])
+                        } else {
+                            (vec![cb.statement.clone(), tb.statement.clone()], vec![cp, tp])
+                        };
+                        let mut ts = vec![CTX_A.transcript(), CTX_A.transcript()];
+                        verify_observed(&sts, &proofs, &mut ts, VerifyAction::VerifyOnly).is_ok()
+                    };
                     for first in [true, false] {
+                        let memo = &mut twin_memo[first as usize];
+                        if memo.is_none() {
+                            *memo = Some(twin_ok(first));
+                        }
+                        if *memo != Some(true) {
+                            *res.outcome_counter("in-batch-twin-not-accepted(skipped)") += 1;
+                            continue;
+                        }
                         let (sts, proofs) = if first {
                             (vec![built.statement.clone(), comp.statement.clone()], vec![P::proof_clone(&proof), P::proof_clone(&comp_proof)])
                         } else {
